@@ -8,7 +8,8 @@ import numpy as np
 META = {
     "rule": "one case = (area, point cloud, data, getter arguments, chunking). Point clouds: half/quarter-pixel "
             "lattice around the grid (inside, on every border, just outside) + random points; data: small integers "
-            "and dyadics incl. negatives, NaNs, explicit fill values, categories. Non-trivial: some cell holds >= 2 "
+            "and dyadics incl. negatives, NaNs, explicit fill values, categories; integer data (int32, int64, narrow types) containing a finite "
+            "fill value (255, -1, -999, the largest code) passed as fill_value, skipna True / False, against a per-cell reference in Python integers. Non-trivial: some cell holds >= 2 "
             "points and some point is outside the area. Distinct = distinct (area, cloud id, data id, getter, args, chunks).",
     "assumptions": ["np.histogram / np.argsort / np.digitize / np.unique behave as documented",
                     "integer and dyadic data make float sums exact (exact class)"],
@@ -337,8 +338,150 @@ def run_area(ctx, name, area):
         ctx.count("clouds")
 
 
+INT_FILLS = {   # finite fill values an integer type can hold (a saturated code, -1, -999, the largest code)
+    "uint8": (255,), "int8": (-1, 127), "int16": (-1, -999, 255, 32767), "uint16": (255, 65535),
+    "int32": (255, -1, -999), "int64": (255, -1, -999),
+}
+
+
+def _int_data(r, n, dtype, fill, style):
+    """n integer values of `dtype`; about a quarter are the fill value (missing measurements), the others never equal it"""
+    info = np.iinfo(dtype)
+    if style == "small":
+        lo, hi = (max(int(info.min), -9), 9) if info.min < 0 else (0, 200)
+        pool = [v for v in range(lo, hi + 1) if v != fill]
+        valid = [r.choice(pool) for _ in range(n)]
+    elif style == "around_fill":          # valid values right next to the fill value
+        pool = [v for v in (fill - 2, fill - 1, fill + 1, fill + 2, 1, 0) if int(info.min) <= v <= int(info.max) and v != fill]
+        valid = [r.choice(pool) for _ in range(n)]
+    else:                                 # "big": close to the limits of the type (64-bit: sums stay below 2**53)
+        top, bot = (int(info.max), int(info.min)) if info.bits < 64 else (10 ** 12, -10 ** 12)
+        pool = [v for v in (top, top - 1, top - 7, top // 2, bot, bot + 3 if bot < 0 else 3, 0, 1) if v != fill]
+        valid = [r.choice(pool) for _ in range(n)]
+    vals = [fill if r.random() < 0.25 else v for v in valid]
+    return np.array(vals, dtype=dtype), vals
+
+
+def run_area_integer_fill(ctx, name, area):
+    """integer data (int32, int64 and the narrow types) that CONTAIN a finite fill value, passed as fill_value: per cell, from the points of the cell
+    (exact membership as in run_area), get_sum(skipna=True) is the sum of the points that are not the fill value (0 where there is none),
+    get_sum(skipna=False) is the fill value where the cell holds a missing point and the sum elsewhere, get_average is the mean of the valid
+    points (the fill value where there is none); the grand total is the total of the valid data inside the area; for every chunking of coordinates
+    and data, dask and xarray containers.  The reference is computed here in Python integers; the Lean model is asked as well."""
+    import dask.array as da
+    import xarray as xr
+    from pyproj import Proj
+    from pyresample.bucket import BucketResampler
+    r = ctx.rng
+    W, H = area.width, area.height
+    size = W * H
+    g = [Fraction(float(v)) for v in area.area_extent] + [W, H]
+    for ck in ("lattice", "dense"):
+        lons, lats = _cloud(ctx, area, ck)
+        n = lons.size
+        with warnings.catch_warnings():
+            warnings.simplefilter("ignore")
+            px, py = Proj(area.proj_dict)(lons, lats)
+        px, py = np.asarray(px, float), np.asarray(py, float)
+        fx = [(Fraction(float(x)) - g[0]) / (g[2] - g[0]) * W for x in px]
+        fy = [(g[3] - Fraction(float(y))) / (g[3] - g[1]) * H for y in py]
+        # points within 1e-9 pixel of a cell border (but not on it) have no certain cell: they are taken out of the cloud
+        keep = [not ((0 < abs(a - round(a)) < Fraction(1, 10 ** 9)) or (0 < abs(b - round(b)) < Fraction(1, 10 ** 9))) for a, b in zip(fx, fy)]
+        ctx.count("intfill.points_dropped.ambiguous_membership", n - sum(keep))
+        lons, lats = lons[np.array(keep)], lats[np.array(keep)]
+        fx, fy = [a for a, k_ in zip(fx, keep) if k_], [b for b, k_ in zip(fy, keep) if k_]
+        n = lons.size
+        if n < 4:
+            continue
+        cell = []
+        for a, b in zip(fx, fy):
+            c, q = math.floor(a), math.floor(b)
+            cell.append(q * W + c if (0 <= c < W and 0 <= q < H) else -1)
+        members = [[i for i in range(n) if cell[i] == b] for b in range(size)]
+        dtypes = list(INT_FILLS)
+        if ctx.quick:
+            dtypes = ["int32", "int64"] + r.sample(["uint8", "int8", "int16", "uint16"], 1)
+        chunkings = _chunkings(ctx, n)
+        if ctx.quick and len(chunkings) > 2:
+            chunkings = [chunkings[0], r.choice(chunkings[1:])]
+        for dname in dtypes:
+            fills = list(INT_FILLS[dname]) if not ctx.quick else r.sample(INT_FILLS[dname], min(2 if dname in ("int32", "int64") else 1, len(INT_FILLS[dname])))
+            for fill in fills:
+                style = r.choice(["small", "small", "around_fill", "big"])
+                data, vals = _int_data(r, n, np.dtype(dname), fill, style)
+                assert [int(v) for v in data] == vals
+                want_sum, want_strict, want_avg, n_missing_cells = [], [], [], 0
+                for b in range(size):
+                    pts = [vals[i] for i in members[b] if vals[i] != fill]
+                    missing = len(pts) < len(members[b])
+                    n_missing_cells += bool(missing and pts)
+                    want_sum.append(sum(pts))
+                    want_strict.append(fill if missing else sum(pts))
+                    want_avg.append(float(Fraction(sum(pts), len(pts))) if pts else float(fill))
+                total = sum(want_sum)
+                for ch in chunkings:
+                    dch = ch if r.random() < 0.6 else max(1, n // 3)
+                    container = r.choice(["dask", "dask", "xarray"])
+                    with warnings.catch_warnings():
+                        warnings.simplefilter("ignore")
+                        br = BucketResampler(area, da.from_array(lons, chunks=ch), da.from_array(lats, chunks=ch))
+                        midx = [int(v) for v in np.asarray(br.idxs).astype(int)]
+                    ddata = da.from_array(data, chunks=dch)
+                    if container == "xarray":
+                        ddata = xr.DataArray(ddata, dims=("points",))
+                    inp = {"area": name, "extent": list(map(float, area.area_extent)), "shape": [H, W], "cloud": ck, "n": int(n), "coord_chunks": ch,
+                           "data_chunks": dch, "container": container, "dtype": dname, "fill_value": fill, "values": style,
+                           "lons": [float(v) for v in lons], "lats": [float(v) for v in lats], "data": vals}
+                    brief = {k: v for k, v in inp.items() if k not in ("lons", "lats", "data")}
+                    for skipna, want in ((True, want_sum), (False, want_strict)):
+                        try:
+                            with warnings.catch_warnings():
+                                warnings.simplefilter("ignore")
+                                s_arr = np.asarray(br.get_sum(ddata, fill_value=fill, skipna=skipna))
+                        except Exception as e:  # noqa
+                            ctx.fail("BucketResampler.get_sum", f"raised {type(e).__name__}: {str(e)[:150]}", {**inp, "skipna": skipna}, tags={"cause": "raises"}, size=size)
+                            continue
+                        got = [int(v) if float(v) == int(v) else float(v) for v in s_arr.ravel()]
+                        ctx.case("int-fill", (name, ck, ch, dch, container, dname, fill, style, skipna), nontrivial=n_missing_cells > 0 and -1 in cell,
+                                 sample={"input": {**brief, "skipna": skipna}, "sum": got} if dname == "int32" else None)
+                        ctx.count(f"intfill.{dname}.{'skipna' if skipna else 'strict'}")
+                        if tuple(s_arr.shape) != (H, W):
+                            ctx.fail("BucketResampler.get_sum", "result does not have the area's shape", {**inp, "skipna": skipna}, list(s_arr.shape), size=size)
+                            continue
+                        if skipna and sum(got) != total:
+                            ctx.fail("BucketResampler.get_sum", f"{dname} data with fill value {fill}: sum over cells differs from the total of the valid data inside the area",
+                                     {**inp, "skipna": skipna}, {"sum_cells": sum(got), "total": total}, tags={"dtype": dname}, size=size)
+                        bad = [b for b in range(size) if got[b] != want[b]]
+                        if bad:
+                            b = bad[0]
+                            ctx.fail("BucketResampler.get_sum", f"{dname} data with fill value {fill}, skipna={skipna}: per-cell sum differs from the "
+                                     + ("sum of the valid points in the cell" if skipna else "documented value (fill value where a point of the cell is missing, else the sum)"),
+                                     {**inp, "skipna": skipna}, {"cell": b, "impl": got[b], "want": want[b], "points_in_cell": [vals[i] for i in members[b]], "cells_differing": len(bad)},
+                                     tags={"dtype": dname}, size=size)
+                        if ctx.M:
+                            rep = ctx.M.ask("sum", size, Fraction(fill), skipna, Fraction(0), midx, [Fraction(v) for v in vals])
+                            _cmp(ctx, "sum", {**brief, "skipna": skipna}, s_arr.astype(float), rep)
+                    try:
+                        with warnings.catch_warnings():
+                            warnings.simplefilter("ignore")
+                            avg = np.asarray(br.get_average(ddata, fill_value=fill, skipna=True), float)
+                    except Exception as e:  # noqa
+                        ctx.fail("BucketResampler.get_average", f"raised {type(e).__name__}: {str(e)[:150]}", inp, tags={"cause": "raises"}, size=size)
+                        continue
+                    ctx.case("int-fill", (name, ck, ch, dch, container, dname, fill, style, "average"), nontrivial=n_missing_cells > 0)
+                    bad = [b for b in range(size) if float(avg.ravel()[b]) != want_avg[b]]
+                    if bad:
+                        b = bad[0]
+                        ctx.fail("BucketResampler.get_average", f"{dname} data with fill value {fill}: per-cell average differs from the mean of the valid points in the cell "
+                                 "(the fill value where there is none)", inp, {"cell": b, "impl": float(avg.ravel()[b]), "want": want_avg[b],
+                                                                               "points_in_cell": [vals[i] for i in members[b]]}, tags={"dtype": dname}, size=size)
+        ctx.count("intfill.clouds")
+
+
 def run(ctx):
     import dask
     dask.config.set(scheduler="synchronous")
     for name, area in _areas(ctx):
         run_area(ctx, name, area)
+    for name, area in _areas(ctx):
+        run_area_integer_fill(ctx, name, area)
